@@ -10,16 +10,16 @@ import (
 
 // PairCase describes an ordered pair (old, new) of trees of one configuration.
 type PairCase struct {
-	Cfg    core.Config `json:"cfg"`
-	Base   []core.Op   `json:"base"`            // history of the old tree
-	Mode   string      `json:"mode"`            // clone | reload | unrelated | same
-	Delta  []core.Op   `json:"delta,omitempty"` // ops deriving new from old, or the independent history of new
-	OldRes string      `json:"old_res"`         // memory | persisted | reloaded
-	NewRes string      `json:"new_res"`
-	OldNil bool        `json:"old_nil,omitempty"` // pass a nil old tree (C06)
-	StopAt int         `json:"stop_at"`           // callback stops at this index (-1 never)
-	StopErr bool       `json:"stop_err,omitempty"` // ... by returning an error instead of false
-	StopKeep bool      `json:"stop_keep,omitempty"` // the keepGoing flag returned together with the error
+	Cfg      core.Config `json:"cfg"`
+	Base     []core.Op   `json:"base"`            // history of the old tree
+	Mode     string      `json:"mode"`            // clone | reload | unrelated | same
+	Delta    []core.Op   `json:"delta,omitempty"` // ops deriving new from old, or the independent history of new
+	OldRes   string      `json:"old_res"`         // memory | persisted | reloaded
+	NewRes   string      `json:"new_res"`
+	OldNil   bool        `json:"old_nil,omitempty"`   // pass a nil old tree (C06)
+	StopAt   int         `json:"stop_at"`             // callback stops at this index (-1 never)
+	StopErr  bool        `json:"stop_err,omitempty"`  // ... by returning an error instead of false
+	StopKeep bool        `json:"stop_keep,omitempty"` // the keepGoing flag returned together with the error
 }
 
 var pairBaseWeights = core.OpWeights{
@@ -32,18 +32,18 @@ var pairDeltaWeights = core.OpWeights{
 func genPair(t *rapid.T, tier string, o core.GenOpts, persistedOnly bool) PairCase {
 	c := PairCase{Cfg: core.GenConfig(t, tier, o)}
 	pool := len(c.Cfg.Pool())
-	c.Base = append(core.GenFill(t, pool, pool), core.GenProgram(t, pairBaseWeights, 25, 1)...)
+	c.Base = append(core.GenFillCfg(t, c.Cfg, pool), core.GenProgram(t, core.WithBulk(pairBaseWeights, c.Cfg), 25, 1)...)
 	c.Mode = rapid.SampledFrom([]string{"clone", "reload", "reload", "unrelated", "unrelated", "otherstore", "same"}).Draw(t, "mode")
 	switch c.Mode {
 	case "otherstore":
-		c.Delta = append(core.GenFill(t, pool, pool), core.GenProgram(t, pairBaseWeights, 25, 1)...)
+		c.Delta = append(core.GenFillCfg(t, c.Cfg, pool), core.GenProgram(t, core.WithBulk(pairBaseWeights, c.Cfg), 25, 1)...)
 	case "clone", "reload":
 		c.Delta = core.GenProgram(t, pairDeltaWeights, 12, 1)
 		if rapid.IntRange(0, 5).Draw(t, "nodelta") == 0 {
 			c.Delta = nil
 		}
 	case "unrelated":
-		c.Delta = append(core.GenFill(t, pool, pool), core.GenProgram(t, pairBaseWeights, 25, 1)...)
+		c.Delta = append(core.GenFillCfg(t, c.Cfg, pool), core.GenProgram(t, core.WithBulk(pairBaseWeights, c.Cfg), 25, 1)...)
 	}
 	res := []string{"memory", "persisted", "reloaded"}
 	if persistedOnly {
@@ -56,11 +56,11 @@ func genPair(t *rapid.T, tier string, o core.GenOpts, persistedOnly bool) PairCa
 }
 
 type pair struct {
-	wNew       *core.World // the world (store, cache) of the new tree; == w unless mode is "otherstore"
-	w          *core.World
-	old, new   *core.Tree
-	oldSR      *core.SavedRoot // when persisted
-	newSR      *core.SavedRoot
+	wNew     *core.World // the world (store, cache) of the new tree; == w unless mode is "otherstore"
+	w        *core.World
+	old, new *core.Tree
+	oldSR    *core.SavedRoot // when persisted
+	newSR    *core.SavedRoot
 }
 
 // buildPair constructs the two trees; ok=false when an operation itself failed (base failure).
